@@ -97,7 +97,7 @@ Inductive kstep :=
 (* [keys]: on the etcd store, the keys really present under /kafscale/consumers/ after the
    commit (read through the etcd client): the model must hold exactly these keys, so any
    change of the key function is a mismatch at once *)
-| KCommit (g t : bytes) (p off : Z) (meta : bytes) (keys : option (list bytes))
+| KCommit (g : bytes) (req : commit_req) (keys : option (list bytes))   (* one OffsetCommit request *)
 | KFetch (g : bytes) (req : list (bytes * list Z)) (observed : list (bytes * list (Z * Z * bytes * Z))).
 
 Record case16 := mkCase16 { k16_etcd : bool; k16_steps : list kstep }.
@@ -110,14 +110,14 @@ Definition fetch_eqb := list_eqb (pair_eqb bytes_eqb (list_eqb part_eqb)).
 Fixpoint check16_im (s : inmem) (l : list kstep) : bool :=
   match l with
   | [] => true
-  | KCommit g t p off meta _ :: l' => check16_im (fst (im_step s (OCommit g t p off meta))) l'
+  | KCommit g req _ :: l' => check16_im (fst (im_run s (offset_commit_ops g req))) l'
   | KFetch g req obs :: l' => fetch_eqb (offset_fetch (im_lookup s) g req) obs && check16_im s l'
   end.
 Fixpoint check16_et (s : etcd) (l : list kstep) : bool :=
   match l with
   | [] => true
-  | KCommit g t p off meta keys :: l' =>
-      let s' := fst (et_step s (OCommit g t p off meta)) in
+  | KCommit g req keys :: l' =>
+      let s' := fst (et_run s (offset_commit_ops g req)) in
       match keys with
       | Some ks => perm_eqb bytes_eqb (map fst (et_coff s') ++ map fst (et_groups s')) ks
       | None => true
